@@ -390,6 +390,7 @@ func (i *interpreter) runPath(prefix []decision) {
 	i.natives = newNativeState()
 	i.panicOrigin = nil
 	startSteps := i.steps
+	i.pathStart = i.steps
 	i.solver.Reset()
 	// fresh globals for the olareg module (incl. harness and environment models);
 	// library packages (stdlib, go-digest) are initialised once per worker and kept:
